@@ -43,6 +43,7 @@ def plan(tier, seed):
     for i in range(4):
         specs.append(("truncations", i, 4))
     specs += [("keyword-names", i, 2) for i in range(2)]
+    specs.append(("large-inputs",))
     n = 8000 if tier == "quick" else 100000
     for i in range(16):
         specs.append(("alias-graphs", n // 16, i))
@@ -293,6 +294,43 @@ def run_shard(ctx, spec):
         for k0 in range(0, len(batch), 100):
             scr.run(batch[k0:k0 + 100], sample_rate=0.02)
         ctx.stats["alias_graph_cases"] += len(batch)
+    elif kind == "large-inputs":
+        # far beyond the 8 KiB of the time bound: only "never overflows the stack or aborts" is decided here
+        tmp = os.path.join(ctx.tmpdir(), "large")
+        os.makedirs(tmp, exist_ok=True)
+        log = os.path.join(tmp, "log")
+        os.makedirs(log, exist_ok=True)
+        gen = os.path.join(tmp, "gen-ok-large")
+        if not os.path.exists(gen):
+            os.symlink(ctx.paths["fakegen"], gen)
+        from .. import wire as _wire
+        with open(os.path.join(log, "gen-ok-large.reply"), "wb") as f:
+            f.write(_wire.enc_reply([]))
+        for name, (text, extra, needs_gen) in fam.large_input_witnesses():
+            path = os.path.join(tmp, name + ".slice")
+            with open(path, "w") as f:
+                f.write(text)
+            argv = [name + ".slice"] + extra + (["-G", gen] if needs_gen else ["--dry-run"])
+            res = ctx.run_slicec(argv, cwd=tmp, env={"FAKEGEN_LOG": log}, timeout=120)
+            os.unlink(path)
+            ctx.stats["binary_runs"] += 1
+            ctx.stats["large_input_runs"] += 1
+            ctx.note_case(("large", name))
+            replay = {"kind": "binary", "argv": argv, "family": "large-inputs", "witness": name, "input_bytes": len(text),
+                      "how_to": "generate the input with vlib/checks/c01_families.py: large_input_witnesses()", "observed": res.brief()}
+            if res.timed_out:
+                ctx.inconclusive.append({"family": "large-inputs", "witness": name, "why": "watchdog"})
+                continue
+            crash = res.crashed()
+            if crash:
+                p = core.stderr_panic(res.stderr) or {"message": crash, "location": "?"}
+                if p["location"] == "stack":
+                    sig = "stack-overflow:" + name
+                else:
+                    sig = core.panic_signature(p) if p["location"] != "?" else "crash:large-inputs:" + name
+                ctx.violate(sig, "slicec %s on the %d KB input %s: %s" % (crash, len(text) // 1024, name, p["message"][:120]), replay)
+            elif name.startswith("control-") and res.status != 0:
+                ctx.violate("large-control-rejected:" + name, "the control input %s was rejected: %s" % (name, res.stderr[:200]), replay)
     elif kind == "keyword-names":
         _, idx, n = spec
         batch = [{"files": t, "key": k} for i, (k, t) in enumerate(fam.keyword_name_programs()) if i % n == idx]
@@ -623,7 +661,7 @@ def main(tier, seed):
               "distinct_nontrivial = distinct non-empty inputs"
               % (len(fam.TOKENS), 2 if tier == "quick" else 3)),
         required={"inproc_cases": 5000, "binary_runs": 500, "inproc_error_free": 50, "typeform_position_pairs": 300,
-                  "scaling_instances": 20, "cmdline_runs": 300, "doc_indentation_cases": 100, "doc_product_cases": 1000, "eol_defect_cases": 1000, "truncation_cases": 1500, "asan.truncation_cases": 1500, "alias_graph_cases": 5000, "keyword_name_cases": 900,
+                  "scaling_instances": 20, "cmdline_runs": 300, "doc_indentation_cases": 100, "doc_product_cases": 1000, "eol_defect_cases": 1000, "truncation_cases": 1500, "asan.truncation_cases": 1500, "alias_graph_cases": 5000, "keyword_name_cases": 900, "large_input_runs": 6,
                   "asan.inproc_cases": 1500, "asan.binary_runs": 300, "asan.valid_model_programs": 200,
                   **({"fuzz_executions": 200000, "fuzz_coverage_edges": 3000} if tier == "thorough" else {})},
         assumptions=["the time bound is decided on CPU time (rusage / thread clock), never on wall-clock; a watchdog firing below the "
